@@ -167,6 +167,18 @@ def access_use_programs(p: Program):
     return out
 
 
+def debug_access_programs():
+    """C17 x `debug`: a write-only / inaccessible field must not gain a getter because the struct asks for Debug
+    (on the unchanged tree such a declaration does not compile at all, which is what C19 states)"""
+    out = []
+    for acc_ in ("w", ""):
+        s = Struct(f"Sacdbg{acc_ or 'none'}", 16, [Field("a", T_u(8), [(0, 8)], access="rw"), Field("k", T_u(8), [(8, 8)], access=acc_)], debug=True)
+        p = Program(f"acdbg{acc_ or 'none'}", structs=[s], props=("C17",))
+        out.append(UseProg(f"acdbg{acc_ or 'none'}n", p, f"pub fn use_(s: {s.name}) -> u8 {{ s.k() }}", False,
+                           f"{s.name}.k [{acc_ or 'none'}] with the debug option: a getter must not exist"))
+    return out
+
+
 def builder_use_programs(p: Program):
     """C14: the full chain compiles (in const context); build() on every proper prefix and on every chain with one step
     left out must not compile; builder() itself must not compile when no builder may exist"""
